@@ -28,6 +28,7 @@
 #include <cstdint>
 #include <memory>
 #include <string>
+#include <type_traits>
 #include <utility>
 #include <vector>
 
@@ -47,6 +48,10 @@ template <typename StringSet, typename Traits>
 class StringSetBase
 {
 public:
+    //! unsigned variant of the character type: strings are always compared as
+    //! _unsigned_ characters, also when the set is built on plain (signed) char.
+    typedef typename std::make_unsigned<typename Traits::Char>::type UChar;
+
     //! index-based array access (readable and writable) to String objects.
     typename Traits::String& at(size_t i) const
     {
@@ -75,7 +80,8 @@ public:
     {
         const StringSet& ss = *static_cast<const StringSet*>(this);
         return ss.is_end(a, ai) ||
-               (!ss.is_end(a, ai) && !ss.is_end(b, bi) && *ai < *bi);
+               (!ss.is_end(a, ai) && !ss.is_end(b, bi) &&
+                UChar(*ai) < UChar(*bi));
     }
 
     //! check if string a is less or equal to string b at iterators ai and bi.
@@ -86,7 +92,8 @@ public:
     {
         const StringSet& ss = *static_cast<const StringSet*>(this);
         return ss.is_end(a, ai) ||
-               (!ss.is_end(a, ai) && !ss.is_end(b, bi) && *ai <= *bi);
+               (!ss.is_end(a, ai) && !ss.is_end(b, bi) &&
+                UChar(*ai) <= UChar(*bi));
     }
 
     //! \}
@@ -94,11 +101,10 @@ public:
     //! \name Character Extractors
     //! \{
 
-    typename Traits::Char get_char(const typename Traits::String& s,
-                                   size_t depth) const
+    UChar get_char(const typename Traits::String& s, size_t depth) const
     {
         const StringSet& ss = *static_cast<const StringSet*>(this);
-        return *ss.get_chars(s, depth);
+        return UChar(*ss.get_chars(s, depth));
     }
 
     //! Return up to 1 characters of string s at iterator i packed into a
@@ -110,7 +116,7 @@ public:
 
         if (ss.is_end(s, i))
             return 0;
-        return std::uint8_t(*i);
+        return std::uint8_t(UChar(*i));
     }
 
     //! Return up to 2 characters of string s at iterator i packed into a
@@ -123,11 +129,11 @@ public:
         std::uint16_t v = 0;
         if (ss.is_end(s, i))
             return v;
-        v = (std::uint16_t(*i) << 8);
+        v = (std::uint16_t(UChar(*i)) << 8);
         ++i;
         if (ss.is_end(s, i))
             return v;
-        v |= (std::uint16_t(*i) << 0);
+        v |= (std::uint16_t(UChar(*i)) << 0);
         return v;
     }
 
@@ -141,19 +147,19 @@ public:
         std::uint32_t v = 0;
         if (ss.is_end(s, i))
             return v;
-        v = (std::uint32_t(*i) << 24);
+        v = (std::uint32_t(UChar(*i)) << 24);
         ++i;
         if (ss.is_end(s, i))
             return v;
-        v |= (std::uint32_t(*i) << 16);
+        v |= (std::uint32_t(UChar(*i)) << 16);
         ++i;
         if (ss.is_end(s, i))
             return v;
-        v |= (std::uint32_t(*i) << 8);
+        v |= (std::uint32_t(UChar(*i)) << 8);
         ++i;
         if (ss.is_end(s, i))
             return v;
-        v |= (std::uint32_t(*i) << 0);
+        v |= (std::uint32_t(UChar(*i)) << 0);
         return v;
     }
 
@@ -167,35 +173,35 @@ public:
         std::uint64_t v = 0;
         if (ss.is_end(s, i))
             return v;
-        v = (std::uint64_t(*i) << 56);
+        v = (std::uint64_t(UChar(*i)) << 56);
         ++i;
         if (ss.is_end(s, i))
             return v;
-        v |= (std::uint64_t(*i) << 48);
+        v |= (std::uint64_t(UChar(*i)) << 48);
         ++i;
         if (ss.is_end(s, i))
             return v;
-        v |= (std::uint64_t(*i) << 40);
+        v |= (std::uint64_t(UChar(*i)) << 40);
         ++i;
         if (ss.is_end(s, i))
             return v;
-        v |= (std::uint64_t(*i) << 32);
+        v |= (std::uint64_t(UChar(*i)) << 32);
         ++i;
         if (ss.is_end(s, i))
             return v;
-        v |= (std::uint64_t(*i) << 24);
+        v |= (std::uint64_t(UChar(*i)) << 24);
         ++i;
         if (ss.is_end(s, i))
             return v;
-        v |= (std::uint64_t(*i) << 16);
+        v |= (std::uint64_t(UChar(*i)) << 16);
         ++i;
         if (ss.is_end(s, i))
             return v;
-        v |= (std::uint64_t(*i) << 8);
+        v |= (std::uint64_t(UChar(*i)) << 8);
         ++i;
         if (ss.is_end(s, i))
             return v;
-        v |= (std::uint64_t(*i) << 0);
+        v |= (std::uint64_t(UChar(*i)) << 0);
         return v;
     }
 
